@@ -29,8 +29,8 @@ def random_lex(rng):
         if rng.random() < p:
             lex[k] = rng.choice(choices)
     maybe("eol", ["\r\n"])
-    maybe("num.scale", ["expE", "expe", "plus", "tz"], 0.5)
-    maybe("num.limit", ["expE", "expe", "plus", "tz"], 0.5)
+    maybe("num.scale", ["expE", "expe", "plus", "tz", "nz"], 0.5)
+    maybe("num.limit", ["expE", "expe", "plus", "tz", "nz"], 0.5)
     maybe("order.switch", ["rev", "shuf"], 0.5)
     maybe("explicit", [True])
     maybe("omit_full", [True])
